@@ -264,6 +264,12 @@ func SecurityTally(ctx sdk.Context, k Keeper, proposal types.Proposal) (bool, bo
 		if vote.Option == govTypes.OptionEmpty {
 			continue
 		}
+		// One certifier one vote: only the certifiers in office when the round is tallied have a vote.
+		// A vote cast by a certifier who has been removed from the council since no longer counts.
+		voter, err := sdk.AccAddressFromBech32(vote.Voter)
+		if err != nil || !k.IsCertifier(ctx, voter) {
+			continue
+		}
 		results[vote.Option] = results[vote.Option].Add(sdk.NewDec(1))
 		totalHeadCounts = totalHeadCounts.Add(sdk.NewDec(1))
 	}
